@@ -29,6 +29,8 @@ pub struct CCase {
     pub blowup: usize,
     pub cc_draws: Vec<Vec<u32>>,
     pub deep_draws: Vec<Vec<u32>>,
+    #[serde(default)]
+    pub aux_draws: Vec<Vec<u32>>,
 }
 
 /// A coin that hands out the scripted elements in order; running out of script is an error.
@@ -114,7 +116,18 @@ fn one<E: FieldElement<BaseField = F40961>>(c: &CCase) -> Value {
         Err(e) => return json!({"error": format!("deep: {e}")}),
     };
     let deep_used = coin.next;
+    // auxiliary random elements (multi-segment AIRs)
+    let (aux_rands, aux_used) = if desc.aux.is_empty() {
+        (vec![], 0)
+    } else {
+        let mut coin = ScriptCoin::<B, Blake3_256<B>>::with(c.aux_draws.clone());
+        match air.get_aux_rand_elements::<E, _>(&mut coin) {
+            Ok(r) => (coords(r.rand_elements()), coin.next),
+            Err(e) => return json!({"error": format!("aux: {e}")}),
+        }
+    };
     json!({
+        "aux_rands": aux_rands, "aux_used": aux_used,
         "transition": coords(&cc.transition), "boundary": coords(&cc.boundary), "cc_used": cc_used,
         "trace": coords(&deep.trace), "constraints": coords(&deep.constraints), "deep_used": deep_used,
     })
